@@ -1880,8 +1880,72 @@ class Interp:
             if isinstance(a, RefV) and a.mut:
                 tgt = self.deref(st, a)
                 self.store_ref(st, a, self.havoc_value(st, tgt, 'ext'))
-        v = self.opaque_result(st, dest_ty, 'ret:' + cands[0][0].split('::')[-1]) if dest_ty else Opaque('?', 'ret')
+        tag = st.fresh_name('ret:' + cands[0][0].split('::')[-1])
+        # the unknown result may depend on everything the arguments mention: remembered for the information-flow rules
+        deps = set()
+        for a in args:
+            deps |= self.value_syms(st, a)
+        st.ctx.sym_deps[tag] = frozenset(deps)
+        v = self.sym_value(st, dest_ty, tag) if isinstance(dest_ty, dict) else Opaque(dest_ty or '?', 'ret')
         return self.finish_model(st, fr, t, v)
+
+    def value_syms(self, st, v, depth=0):
+        """names of all symbols an abstract value mentions (through references, aggregates and earlier unknown results)"""
+        out = set()
+        if depth > 6 or v is None:
+            return out
+
+        def poly_syms(p):
+            stack = [p]
+            while stack:
+                q = stack.pop()
+                for a in q.atoms():
+                    if a[0] == 'sym':
+                        out.add(a[1])
+                        for pre, d in st.ctx.sym_deps.items():
+                            if a[1].startswith(pre):
+                                out.update(d)
+                    for x in a[1:]:
+                        if isinstance(x, Poly):
+                            stack.append(x)
+                        elif isinstance(x, tuple):
+                            stack.extend(y for y in x if isinstance(y, Poly))
+
+        def b_syms(b):
+            k = b.k
+            if k[0] == 'sym':
+                out.add(k[1])
+                for pre, d in st.ctx.sym_deps.items():
+                    if isinstance(k[1], str) and k[1].startswith(pre):
+                        out.update(d)
+            for x in k[1:]:
+                if isinstance(x, Poly):
+                    poly_syms(x)
+                elif isinstance(x, B):
+                    b_syms(x)
+        if isinstance(v, Num):
+            poly_syms(v.term)
+        elif isinstance(v, BoolV):
+            b_syms(v.b)
+        elif isinstance(v, RefV):
+            try:
+                out |= self.value_syms(st, self.deref(st, v), depth + 1)
+            except InterpError:
+                pass
+        elif isinstance(v, StructV):
+            for f in v.fields:
+                out |= self.value_syms(st, f, depth + 1)
+        elif isinstance(v, TupleV):
+            for f in v.items:
+                out |= self.value_syms(st, f, depth + 1)
+        elif isinstance(v, EnumV):
+            for pl in v.payload.values():
+                for f in (pl if isinstance(pl, list) else []):
+                    out |= self.value_syms(st, f, depth + 1)
+        elif isinstance(v, ContV):
+            if v.len is not None:
+                poly_syms(v.len)
+        return out
 
     def local_ty(self, fr, place):
         if place['p']:
